@@ -179,12 +179,17 @@ impl PoolAllocator {
         (ptr.as_ptr() as usize + size - adjusted_start) / bucket_size
     }
 
+    /// The distance between two buckets: the bucket size rounded up to the bucket alignment.
+    fn bucket_stride(&self) -> usize {
+        align(self.bucket_size, self.bucket_alignment)
+    }
+
     fn verify_ptr_is_managed_by_allocator(&self, ptr: NonNull<u8>) {
         let position = ptr.as_ptr() as usize;
         debug_assert!(
             !(position < (self.start.as_ptr() as usize)
                 || position > (self.start.as_ptr() as usize) + self.size
-                || !(position - self.start.as_ptr() as usize).is_multiple_of(self.bucket_size)),
+                || !(position - self.start.as_ptr() as usize).is_multiple_of(self.bucket_stride())),
             "The pointer {ptr:?} is not managed by this allocator."
         );
     }
@@ -193,7 +198,7 @@ impl PoolAllocator {
         self.verify_ptr_is_managed_by_allocator(ptr);
         let position = ptr.as_ptr() as usize;
 
-        ((position - self.start.as_ptr() as usize) / self.bucket_size) as u32
+        ((position - self.start.as_ptr() as usize) / self.bucket_stride()) as u32
     }
 }
 
@@ -217,7 +222,7 @@ impl Allocate<NonNull<u8>> for PoolAllocator {
                     self.start
                         .as_ptr()
                         .cast_mut()
-                        .add(v as usize * self.bucket_size),
+                        .add(v as usize * self.bucket_stride()),
                 )
             }),
             Err(_) => {
@@ -374,9 +379,12 @@ impl<const MAX_NUMBER_OF_BUCKETS: usize> FixedSizePoolAllocator<MAX_NUMBER_OF_BU
             core::ptr::NonNull::<u8>::new_unchecked(new_self.next_free_index.as_mut_ptr().cast())
         };
 
+        // the index set needs capacity + 1 link cells: `next_free_index` is directly followed by
+        // `next_free_index_plus_one`
         let allocator = BumpAllocator::new(
             data_ptr,
-            core::mem::size_of_val(new_self.next_free_index.as_ref()),
+            core::mem::size_of_val(new_self.next_free_index.as_ref())
+                + core::mem::size_of_val(&new_self.next_free_index_plus_one),
         );
         unsafe {
             new_self
